@@ -517,7 +517,15 @@ fn run_case(c: &Case, rep: &mut Report) -> String {
         return answer;
     }
 
-    monitors(c, &line, &mut net, md, &ord, &starts, &ups, rep);
+    // everything that touches the configured groups again (window accessors, image slicing, real
+    // tx_rx cycles) runs under catch_unwind: a panic there is a finding about the case, not a
+    // reason for the harness to die
+    let r = catch_unwind(AssertUnwindSafe(|| monitors(c, &line, &mut net, md, &ord, &starts, &ups, rep)));
+    if r.is_err() {
+        rep.fail("c08/panic-after-config", "a group reached SAFE-OP/OP, then using it (io accessors / tx_rx / image slicing) panicked", &line);
+        std::mem::forget(ups);
+        return answer;
+    }
     drop(ups);
     unsafe { net.recycle() };
     answer
@@ -552,6 +560,27 @@ fn monitors(c: &Case, line: &str, net: &mut Net, md: Md, ord: &[usize], starts: 
             Err(_) => {}
             Ok((rd, len, wins)) => {
                 ranges.push((s, start, start + *len as u64));
+                // direct, oracle-free: what was accepted must fit the image the caller declared
+                let cap = c.max_pdi[s];
+                let outside: Vec<String> = mem
+                    .iter()
+                    .enumerate()
+                    .flat_map(|(i, &k)| [(k, "inputs", wins[i].0.clone()), (k, "outputs", wins[i].1.clone())])
+                    .filter(|(_, _, w)| w.end > cap || w.start > cap)
+                    .map(|(k, what, w)| format!("device {k} {what} {w:?}"))
+                    .collect();
+                if *len > cap || *rd > cap || !outside.is_empty() {
+                    rep.fail(
+                        "c08/too-long-accepted",
+                        &format!(
+                            "group {s}: into_safe_op/into_op returned Ok with read_pdi_len {rd}, pdi_len {len} for an image of MAX_PDI = {cap} bytes (no PdiTooLong); windows outside the image: [{}]; its FMMUs reach logical {:#x}, the group's range ends at {:#x}",
+                            outside.join(", "),
+                            start + *len as u64,
+                            start + cap as u64
+                        ),
+                        line,
+                    );
+                }
                 if ovf {
                     rep.fail("c08/pdo-bit-length-u16-overflow", &format!("group {s}: a bit-length sum wrapped silently; windows do not have the length the PDO configuration requires"), line);
                     continue;
@@ -642,7 +671,11 @@ fn monitors(c: &Case, line: &str, net: &mut Net, md: Md, ord: &[usize], starts: 
     for &(s, up) in live.iter() {
         let g = up.op.as_ref().unwrap();
         for (i, &k) in members(c, *s).iter().enumerate() {
-            g.set_outputs(md, i, &|j| pat_out(k, j));
+            if catch_unwind(AssertUnwindSafe(|| g.set_outputs(md, i, &|j| pat_out(k, j)))).is_err() {
+                let (a, b) = g.io(md, i);
+                rep.fail("c08/panic-after-config", &format!("group {s} is in OP, outputs_raw_mut() of device {k} panics: windows {a:?} / {b:?}, image of {} bytes", c.max_pdi[*s]), line);
+                return;
+            }
         }
     }
     for &(s, up) in live.iter() {
@@ -659,7 +692,8 @@ fn monitors(c: &Case, line: &str, net: &mut Net, md: Md, ord: &[usize], starts: 
                     return;
                 }
                 Err(_) => {
-                    rep.fail("c08/tx-rx-panic", &format!("group {s}: tx_rx panicked"), line);
+                    let (st, rd, len) = g.layout();
+                    rep.fail("c08/panic-after-config", &format!("group {s} is in OP, tx_rx panics: start {st:#x}, read_pdi_len {rd}, pdi_len {len}, image of {} bytes", c.max_pdi[*s]), line);
                     return;
                 }
             }
@@ -741,7 +775,14 @@ fn monitors(c: &Case, line: &str, net: &mut Net, md: Md, ord: &[usize], starts: 
             }
             let d = &c.devs[k];
             let want_in: Vec<u8> = (0..d.dir_len(4) as usize).map(|j| pat_in(k, j)).collect();
-            let got_in = g.inputs(md, i);
+            let got_in = match catch_unwind(AssertUnwindSafe(|| (g.inputs(md, i), g.outputs(md, i)))) {
+                Ok((x, _)) => x,
+                Err(_) => {
+                    let (a, b) = g.io(md, i);
+                    rep.fail("c08/panic-after-config", &format!("group {s} is in OP, inputs_raw()/outputs_raw() of device {k} panics: windows {a:?} / {b:?}, image of {} bytes", c.max_pdi[*s]), line);
+                    return;
+                }
+            };
             if got_in != want_in {
                 let pos = (0..want_in.len().min(got_in.len())).find(|&j| got_in[j] != want_in[j]);
                 let key = class(k, "c08/inputs-misread");
@@ -893,11 +934,16 @@ fn gen_dev(rng: &mut Rng, slot: usize, sh: &Shape) -> Dev {
     d
 }
 
-fn pick_sizes(rng: &mut Rng, devs: &[Dev]) -> [usize; 3] {
+fn pick_sizes(rng: &mut Rng, devs: &[Dev], tight: bool) -> [usize; 3] {
     let mut out = [SIZES[2]; 3];
     for s in 0..3 {
         let need: u64 = devs.iter().filter(|d| d.slot == s).map(|d| d.dir_len(3) + d.dir_len(4)).sum();
         let fit = SIZES.iter().copied().find(|&z| z as u64 >= need).unwrap_or(SIZES[5]);
+        if tight && need > 1 && rng.chance(2, 3) {
+            // the largest capacity that is too small: the layout (or one direction alone) exceeds it
+            out[s] = SIZES.iter().copied().filter(|&z| (z as u64) < need).last().unwrap_or(SIZES[0]);
+            continue;
+        }
         out[s] = match rng.below(10) {
             0 => *rng.pick(&SIZES),
             1 => SIZES[SIZES.iter().position(|&z| z == fit).unwrap().saturating_sub(1)],
@@ -911,16 +957,30 @@ fn pick_sizes(rng: &mut Rng, devs: &[Dev]) -> [usize; 3] {
 fn gen_case(rng: &mut Rng, n: usize) -> Case {
     let ngroups = rng.range(1, 3) as usize;
     let mut devs = Vec::new();
+    // per group: 0 mixed, 1 inputs only, 2 outputs only (capacity checks that look at one direction)
+    let flavour: Vec<u8> = (0..3).map(|_| *rng.pick(&[0u8, 0, 0, 0, 0, 1, 1, 2])).collect();
+    let tight = rng.chance(1, 4) || flavour.iter().take(ngroups).any(|&f| f != 0) && rng.chance(1, 2);
     for _ in 0..n {
         let slot = rng.below(ngroups as u64) as usize;
         let kind = *rng.pick(&[0u8, 0, 1, 2, 2, 2]);
         let maxsm = if kind == 0 { 8 } else { 6 };
-        let n_out = rng.range(0, 3).min(rng.range(0, 3) + 1) as usize;
-        let n_in = (rng.range(0, 3).min(rng.range(0, 3) + 1) as usize).min(maxsm - n_out);
+        let mut n_out = rng.range(0, 3).min(rng.range(0, 3) + 1) as usize;
+        let mut n_in = (rng.range(0, 3).min(rng.range(0, 3) + 1) as usize).min(maxsm - n_out);
+        match flavour[slot] {
+            1 => {
+                n_out = 0;
+                n_in = n_in.max(1);
+            }
+            2 => {
+                n_in = 0;
+                n_out = n_out.max(1);
+            }
+            _ => {}
+        }
         let sh = Shape { kind, n_out, n_in, contiguous: rng.chance(2, 3), big: rng.chance(1, 60) };
         devs.push(gen_dev(rng, slot, &sh));
     }
-    let max_pdi = pick_sizes(rng, &devs);
+    let max_pdi = pick_sizes(rng, &devs, tight);
     Case { max_pdi, devs }
 }
 
@@ -956,7 +1016,15 @@ fn corpus() -> Vec<Case> {
         Case { max_pdi: [6, 40, 40], devs: vec![plain_in(0), plain_in(0), plain_out(0), plain_out(0)] },
         Case { max_pdi: [1, 40, 40], devs: vec![plain_in(0)] },
         Case { max_pdi: [1, 6, 40], devs: vec![plain_out(0), plain_in(1), plain_in(1), plain_in(1), plain_out(2)] },
-        // CoE, two SMs per direction, physically contiguous: 0x1100+2 = 0x1102, 0x1400+3 = 0x1403
+        // does not fit: inputs only (3 x 3 bytes > 6), outputs only (7 x 1 byte > 6), mixed where the inputs alone
+    // already exceed the capacity (9 + 1 > 6), mixed where only the sum does (6 + 1 > 6)
+    Case { max_pdi: [6, 40, 40], devs: vec![plain_in(0), plain_in(0), plain_in(0)] },
+    Case { max_pdi: [6, 40, 40], devs: vec![plain_out(0), plain_out(0), plain_out(0), plain_out(0), plain_out(0), plain_out(0), plain_out(0)] },
+    Case { max_pdi: [6, 40, 40], devs: vec![plain_in(0), plain_out(0), plain_in(0), plain_in(0)] },
+    Case { max_pdi: [6, 40, 40], devs: vec![plain_in(0), plain_in(0), plain_out(0)] },
+    // inputs-only group that does not fit, followed (in address order) by a group that does
+    Case { max_pdi: [1, 6, 40], devs: vec![plain_out(1), plain_in(1), plain_in(0), plain_in(0)] },
+    // CoE, two SMs per direction, physically contiguous: 0x1100+2 = 0x1102, 0x1400+3 = 0x1403
         Case { max_pdi: [40, 40, 40], devs: vec![coe(0, 0x1102, 0x1403)] },
         // KNOWN FINDING c08/coe-multi-sm-shared-fmmu: same device, second SM of each direction elsewhere
         Case { max_pdi: [40, 40, 40], devs: vec![coe(0, 0x1200, 0x1500)] },
@@ -1036,6 +1104,24 @@ fn note_case(c: &Case, out: &str, rep: &mut Report) {
             rep.hit("dev:class-fmmu-index-beyond-count");
         }
     }
+    for s in order(c) {
+        let i: u64 = members(c, s).iter().map(|&k| c.devs[k].dir_len(4)).sum();
+        let o: u64 = members(c, s).iter().map(|&k| c.devs[k].dir_len(3)).sum();
+        let cap = c.max_pdi[s] as u64;
+        let shape = match (i > 0, o > 0) {
+            (true, false) => "inputs-only",
+            (false, true) => "outputs-only",
+            (true, true) => "mixed",
+            _ => "empty",
+        };
+        if i + o > cap {
+            rep.hit(&format!("grp:does-not-fit:{shape}{}", if i > cap && o > 0 { ":inputs-alone-exceed" } else { "" }));
+        } else if i + o == cap {
+            rep.hit(&format!("grp:exact-fit:{shape}"));
+        } else {
+            rep.hit(&format!("grp:fits:{shape}"));
+        }
+    }
     for g in out.split('|').next().unwrap_or("").split(';') {
         let r = g.splitn(3, ':').nth(2).unwrap_or(g);
         let r = r.split('.').take(2).collect::<Vec<_>>().join(".");
@@ -1085,7 +1171,13 @@ fn main() {
         }
         // the line parser must round-trip (replay files rely on it)
         debug_assert_eq!(Case::parse(&c.line()).as_ref().map(|x| x.line()), Some(c.line()));
-        let out = run_case(c, &mut rep);
+        let out = match catch_unwind(AssertUnwindSafe(|| run_case(c, &mut rep))) {
+            Ok(o) => o,
+            Err(_) => {
+                rep.fail("c08/panic-after-config", "the case panicked outside the guarded calls (harness or library)", &c.line());
+                "harness-panic".to_string()
+            }
+        };
         note_case(c, &out, &mut rep);
         rep.case(c.line(), out);
     }
